@@ -70,6 +70,17 @@ Theorem C25_loop_schedule : forall groups h (p : prog),
 Proof. intros groups h p H. exact (chain_ok_others_free groups h _ 0%N 0%N H). Qed.
 Print Assumptions C25_loop_schedule.
 
+(* settled reads on schedules with loop blocks, at instruction granularity: after an instruction P
+   that uses the slot (a block, or a whole loop containing such blocks), any instructions M that pass
+   the executable frame test [instr_free_b] -- blocks, declarations, whole loops whatever their
+   gates do, however often they iterate -- leave the slot as P left it *)
+Theorem C25_settled_loop_schedule : forall ext h A P M w,
+  forallb (instr_free_b h) M = true ->
+  get h (w_buf (fold_left (fun w i => exec ext i w) (A ++ P :: M) w)) =
+  get h (w_buf (exec ext P (fold_left (fun w i => exec ext i w) A w))).
+Proof. exact settled_on_loop_schedule. Qed.
+Print Assumptions C25_settled_loop_schedule.
+
 (* non-vacuity: producer block, then a mutating group, then a reading group, then the consumer *)
 Example C25_example :
   let prod := {| sg_recv := []; sg_send := [(0%N, SFresh)]; sg_slots := [0%N];
